@@ -191,6 +191,9 @@ def cases(tier, seed):
         out.append(Case("positive-psd:%s:re:N=3:NFFT=4" % name, case_positive_psd, dict(name=name, cplx=False, n=4),
                         timeout=120 if q else 900, max_paths=8, feas_timeout=3))
     out.append(Case("ma:N=3:Q=1:M=2:nsym=2", case_ma, dict(N=3, Q=1, M=2, nsym=2), timeout=120, max_paths=32, feas_timeout=2))
+    # odd M and Q > M/2 (valid but unusual order pairs)
+    out.append(Case("ma:N=4:Q=1:M=3:nsym=1", case_ma, dict(N=4, Q=1, M=3, nsym=1), timeout=120, max_paths=32, feas_timeout=2, wall=500))
+    out.append(Case("ma:N=4:Q=2:M=3:nsym=1", case_ma, dict(N=4, Q=2, M=3, nsym=1), timeout=120, max_paths=32, feas_timeout=2, wall=500))
     out.append(Case("ma:N=3:Q=1:M=2:nsym=3", case_ma, dict(N=3, Q=1, M=2, nsym=3), timeout=120 if q else 600, max_paths=32,
                     feas_timeout=2, wall=500 if q else 2400))
     if not q:
